@@ -12,9 +12,10 @@
 -/
 import PM.Step
 import Proofs.Reinsert
-import Proofs.Lvl
 import Proofs.MarkMerge
+import Proofs.Level
 namespace PM
+
 
 /-- the range `f … t` stays inside the parent of `f`: it ends at the depth it starts at and never
     goes above it -/
@@ -59,41 +60,6 @@ theorem lvl_flat {ty tyP : TypeId} {K L : List Node} {b nd : Nat} {ctx : List No
       omega
 
 /-! ### the replace inside one level -/
-
-theorem fsize_zero_of_fnormKids : ∀ (c : List Node), fnormKids c = true → fsize c = 0 → c = []
-  | [], _, _ => rfl
-  | n :: ns, hn, hz => by
-    simp only [fnormKids_cons, Bool.and_eq_true] at hn
-    have := Node.size_pos_of_norm n hn.1
-    simp at hz; omega
-
-/-- **a flat closed replace inside one child list is a validity check of one well-defined list**:
-    the normal-form list `Y` with tokens `before ++ content ++ after` -/
-theorem atLevel_flat_spec (S : Schema) (c : List Node) (hcn : fnorm c = true) (ty : TypeId)
-    (L : List Node) (f t : Nat) (hft : f ≤ t) (ht : t ≤ fsize L)
-    (hdf : depthAt L f = 0) (hdt : depthAt L t = 0)
-    (haf : alignedAt L f = true) (hat : alignedAt L t = true) (hn : fnorm L = true) :
-    ∃ Y, fnorm Y = true ∧ ftoks Y = (ftoks L).take f ++ ftoks c ++ (ftoks L).drop t ∧
-      atLevel S ⟨c, 0, 0⟩ ty L f t 0 = if S.validContent ty Y then .ok Y else .error .failed := by
-  have hnl := fnormKids_of_fnorm hn
-  by_cases hz : fsize c = 0
-  · have hc : c = [] := fsize_zero_of_fnormKids c (fnormKids_of_fnorm hcn) hz
-    subst hc
-    obtain ⟨X, hX⟩ := Flat.twoWay_flat S L f L t (by omega) haf hdf
-      (Flat.splitRight_flat_of_depth L t ht hat hdt)
-    refine ⟨fromArray X, fromArray_norm _ (twoWay_norm S _ _ _ _ _ hnl hnl hX), ?_, ?_⟩
-    · rw [fromArray_toks, twoWay_toks S _ _ _ _ _ hX]; simp
-    · unfold atLevel
-      simp only [fsize_nil, if_true, hX, Except.map]
-  · obtain ⟨l, hl⟩ := fcut_total L 0 f (by omega) (by omega) (alignedAt_zero _) haf hn
-    obtain ⟨r, hr⟩ := fcut_total L t (fsize L) ht (Nat.le_refl _) hat (alignedAt_fsize _) hn
-    refine ⟨fappend (fappend l c) r,
-      fappend_norm _ _ (fappend_norm _ _ (fcut_norm _ _ _ _ hn hl) hcn) (fcut_norm _ _ _ _ hn hr), ?_, ?_⟩
-    · rw [fappend_toks, fappend_toks, fcut_prefix_toks hl (by omega) hdf, fcut_suffix_toks hr hdt]
-    · unfold atLevel
-      simp only []
-      rw [if_neg hz]
-      simp only [hdf, hdt, decide_true, Bool.and_self, if_true, hl, hr]
 
 /-- a flat closed replace that succeeded has pair-aligned ends -/
 theorem twoWay_flat_aligned (S : Schema) : ∀ (L : List Node) (f : Nat) (R : List Node) (t : Nat) (X : List Node),
@@ -239,32 +205,7 @@ theorem lvl_flat_back {ty tyP : TypeId} {K L : List Node} {b nd : Nat} {ctx : Li
       have := hfl.1
       omega
 
-/-- **a flat replace with a closed slice**: it is the level's own replace, put back in place -/
-theorem replaceKids_flat {S : Schema} {ty tyP : TypeId} {K L : List Node} {b nd : Nat}
-    {ctx : List Node → List Node} (h : Lvl ty K b nd tyP L ctx) (c : List Node) (fP tP : Nat)
-    (hft : fP ≤ tP) (ht : tP ≤ fsize L) (hdf : depthAt L fP = 0) (hdt : depthAt L tP = 0) :
-    replaceKids S ty K (b + fP) (b + tP) ⟨c, 0, 0⟩ = (atLevel S ⟨c, 0, 0⟩ tyP L fP tP 0).map ctx := by
-  have hr := h.range
-  obtain ⟨d1, _⟩ := h.depth fP (by omega)
-  obtain ⟨d2, _⟩ := h.depth tP ht
-  unfold replaceKids
-  rw [if_neg (by simp [inRange]; omega)]
-  simp only []
-  rw [if_neg (by omega), if_neg (by rw [d1, d2, hdf, hdt]; simp), if_neg (by simp [Slice.wf]),
-    d1, hdf, Nat.add_zero, Nat.sub_zero]
-  exact h.outer ⟨c, 0, 0⟩ fP tP hft ht
-
 /-! ### two flat replaces, the second starting where the first one's content ends -/
-
-theorem Lvl.norm {ty tyP : TypeId} {K L : List Node} {b nd : Nat} {ctx : List Node → List Node}
-    (h : Lvl ty K b nd tyP L ctx) (hn : fnorm K = true) : fnorm L = true := by
-  induction h with
-  | here => exact hn
-  | down ty pre aC mC ns _ _ ih =>
-    have := fnormKids_of_fnorm hn
-    rw [fnormKids_append] at this
-    simp only [fnormKids_cons, Bool.and_eq_true, Node.norm_elem] at this
-    exact ih this.2.1
 
 theorem tokAligned_shift (l l' : List Tok) (p q : Nat) (hp : 0 < p) (hq : 0 < q)
     (h1 : l[p - 1]? = l'[q - 1]?) (h2 : l[p]? = l'[q]?) : tokAligned l p = tokAligned l' q := by
